@@ -301,6 +301,14 @@ TRUSTED_BASE = [
     "is taken to return in reloader_check (the raising case is proved separately, outside the model); field / parameter types are read off the "
     "annotations; by hand remain the four atomic blocks and their interleaving, the sync wrapper check_and_reload, start / stop / _run_loop, "
     "Guard.set_policy, and every source (HTTPPolicySource.load / etag included)",
+    "for the translated sink block after the repair of finding F21 (supersedes the sentence above about a plain function returning an awaitable): a "
+    "sink (Rbacx.PyS.Sink) is absent or a function in one of THREE spellings — plain def, async def, plain def returning an awaitable — whose "
+    "work returns or raises where it runs; a Call in the trace means the sink's WORK ran (for the asynchronous spellings: what the call "
+    "returned was awaited); `await maybe_await(x(args))` is PyS.callMaybe — maybe_await awaits any awaitable and hands anything else on "
+    "(core/helpers.py, not translated; tied by the comparison with CPython, whose sinks are real def / async def / coroutine-returning / "
+    "__await__-object-returning methods) — so the work runs once in every spelling and a raise at call time or at await time leaves from that "
+    "statement; the unrepaired `iscoroutinefunction` dispatch stays translatable (PyS.call) and is kernel-checked to drop the awaitable "
+    "spelling's work (PyS.f21_old_shape_drops_awaitable)",
 ]
 
 
